@@ -101,6 +101,19 @@ class Gen:
                 out.append((ins, outs[:p] + [t] + outs[p + 1:], var, f'cb-size-out:{p}'))
         for p in range(len(outs) + 1):
             out.append((ins, outs[:p] + [rng.choice(['int', 'err', 'i8', 'sl'])] + outs[p:], var, 'cb-count-out'))
+        # two or more slots of the wrong size at once (counts right): every pair of positions over parameters and results
+        slots = [('i', p) for p in range(len(ins)) if not (var and p == len(ins) - 1)] + [('o', p) for p in range(len(outs))]
+        for a in range(len(slots)):
+            for b in range(a + 1, len(slots)):
+                ci, co = list(ins), list(outs)
+                for (k, p) in (slots[a], slots[b]):
+                    cur = ci if k == 'i' else co
+                    cur[p] = other_size(cur[p], rng, 1)[0]
+                first = slots[a]
+                out.append((ci, co, var, f'cb-size-{"in" if first[0] == "i" else "out"}:{first[1]}'))
+        if len(slots) >= 3:
+            ci, co = [other_size(t, rng, 1)[0] if not (var and p == len(ins) - 1) else t for p, t in enumerate(ins)], [other_size(t, rng, 1)[0] for t in outs]
+            out.append((ci, co, var, f'cb-size-{"in" if slots[0][0] == "i" else "out"}:{slots[0][1]}'))
         # a type that PRINTS like the slot's type but is another type of another size (local shadow / same-named package)
         for p, t in enumerate(ins):
             if t == 'dup':
@@ -235,7 +248,8 @@ class Gen:
 
     def gen_export(self):
         for form in ('func', 'struct'):
-            for nk in ('unknown', 'empty'):
+            # unknown names incl. names that are '/'-aligned path SUFFIXES of a real symbol (tencent/goom.ztouch, goom.ztouch)
+            for nk in ('unknown', 'empty', 'suffix1', 'suffix2'):
                 for call in ('apply', 'as'):
                     for sig in ('- -', 'int int', 'prc,int str,err'):
                         self.add(f'export {form} {nk} {call} {sig} 0', 'symbol-unknown')
@@ -707,6 +721,10 @@ def oracle(op, tag, obs):
         if not rejected:
             return (f'mistake `{mistake}` was accepted at configuration time', 'accepted:' + mistake.split(':')[0])
         want = None if second else WALK_SPEC.get(mistake)   # (*When).Return reports through a string panic (matcher.go:58)
+        if mistake.startswith('iface-cb-') and f.get('chain', '').startswith('traceable') and \
+                not f.get('chain', '').split('>')[-1].startswith(('argsnotmatch', 'returnsnotmatch', 'illegalparamtype')):
+            return (f'mistake `{mistake}`: the cause chain {f.get("chain")} does not END in a typed cause (*ArgsNotMatch, *ReturnsNotMatch or '
+                    f'*IllegalParamType): following Cause() leads to an untyped error', 'cause:iface-signature-untyped')
         ok_inner = mistake.startswith('iface-cb-count') and f.get('walk', '').startswith(('argsnotmatch', 'returnsnotmatch'))
         if want and not f.get('walk', '').startswith(want) and not ok_inner:
             return (f'mistake `{mistake}`: the cause chain {f.get("chain")} walks to {f.get("walk")}, not to the typed cause {want}',
